@@ -12,6 +12,13 @@
 // allowed(client, redirect_uri, response_type) true, where allowed() is written
 // from the property statement (oracle.go). Only "redirect => allowed" is
 // asserted; refusing a registered URI is never an alarm.
+//
+// Any response of a chain may additionally hit a connection that breaks while it
+// is written (fault at the ResponseWriter), and every case ends with histories
+// (hist.go): several authorization requests of three clients with different
+// redirect URIs in flight on the one provider, their steps interleaved over both
+// routers, some delivering responses cut off, reloads after them. Every response
+// is judged against the redirect URIs of the request it belongs to.
 package main
 
 import (
@@ -20,7 +27,7 @@ import (
 
 func main() {
 	run := ev.Start("C03", "exploration")
-	run.SetRule("case = generated client registration + provider config; per case a fixed number of request chains (authorize -> login -> callbacks), each executed on the Provider router and the LegacyServer router; every HTTP response of a chain is one evaluation; distinct = distinct vectors (router, application type, dev mode, glob class, response-type class, requested-URI kind, trigger[+callback fault], phase, response mode) of responses that were judged")
+	run.SetRule("case = generated client registration + provider config; per case a fixed number of request chains (authorize -> login -> callbacks), each executed on the Provider router and the LegacyServer router; then a fixed number of histories (3-6 interleaved authorization requests of the generated client, 'other' and 'peer' on the same provider, callbacks with write faults at the ResponseWriter and reloads); every HTTP response of a chain or history is one evaluation; distinct = distinct vectors (router, application type, dev mode, glob class, response-type class, requested-URI kind, trigger[+callback fault], phase, response mode) of responses that were judged")
 	run.Assume("vstore refuses CreateAuthRequest for prompt=none with login_required (a redirectable error)",
 		"'confidential client' in the http clause is read as application type web (DESIGN.md 6/C03); a web client with auth method none using http + code is counted as grey",
 		"native loopback twin = same path and query as a registered http(s) loopback URI (DESIGN.md); twins that also differ in userinfo/fragment/path spelling are counted as grey",
@@ -35,6 +42,10 @@ func main() {
 		"malformed-glob-decided:legacy",
 		"meta-subst-refused:provider", "meta-subst-refused:legacy",
 		"glob-redirect", "loopback-twin-redirect",
+		// hist.go: broken connections and what one response leaves behind for the next
+		"write-fault-fired:provider", "write-fault-fired:legacy",
+		"form_post-after-broken-write:provider", "form_post-after-broken-write:legacy",
+		"form_post-after-broken-write-of-other-client:provider", "form_post-after-broken-write-of-other-client:legacy",
 	)
 	cases := run.N(15000, 240000)
 	const chains = 10
